@@ -2,7 +2,7 @@
    Model: coq/model/Mmr.v; specification: coq/spec/MmrSpec.v (path ls i = sibling digests from leaf i up to,
    excluding, its peak; mp_verify_spec = what verification has to decide). *)
 From Coq Require Import ZArith List Bool.
-From TF Require Import Word MmrIdxLocal Mmr MmrSpec MmrTerm MmrProofs MmrSmall.
+From TF Require Import Word MmrIdxLocal Mmr MmrSpec MmrTerm MmrProofs MmrSmall MmrUpdates.
 Import ListNotations.
 Open Scope Z_scope.
 
@@ -57,11 +57,26 @@ Definition C05_update_from_append_full : Prop :=
     Some (path D H dflt (ls ++ [d]) i,
           negb (zlength (path D H dflt (ls ++ [d]) i) =? zlength (path D H dflt ls i))).
 
-Definition C05_update_from_leaf_mutation_full : Prop :=
-  forall (D : Type) (H : D -> D -> D) (dflt : D) (ls : list D) (i j : Z) (d : D),
-    0 <= i < zlength ls -> 0 <= j < zlength ls -> zlength ls < 2 ^ 63 ->
-    exists b, update_from_leaf_mutation D H (path D H dflt ls i) i (j, d, path D H dflt ls j) =
-              Some (path D H dflt (upd ls j d) i, b).
+(* single leaf mutation, proved in general: both routines turn the authentication path of leaf i in ls into
+   its authentication path in (upd ls j d) - exactness, hence verification against the new peaks
+   (C05_path_verifies); the batch routine reports exactly the positions whose path changed (md_spec) *)
+Theorem C05_update_from_leaf_mutation : forall (D : Type) (H : D -> D -> D) (dflt : D) (ls : list D) (i j : Z) (d : D),
+  0 <= i < zlength ls -> 0 <= j < zlength ls -> zlength ls < 2 ^ 63 ->
+  exists b, update_from_leaf_mutation D H (path D H dflt ls i) i (j, d, path D H dflt ls j) =
+            Some (path D H dflt (upd ls j d) i, b).
+Proof. exact update_from_leaf_mutation_spec. Qed.
+Print Assumptions C05_update_from_leaf_mutation.
+
+Theorem C05_batch_update_from_leaf_mutation : forall (D : Type) (H : D -> D -> D) (deq : D -> D -> bool) (dflt : D),
+  (forall x y, deq x y = true <-> x = y) ->
+  forall (ls : list D) (j : Z) (d : D) (idxs : list Z),
+    0 <= j < zlength ls -> zlength ls < 2 ^ 63 -> Forall (fun i => 0 <= i < zlength ls) idxs ->
+    exists md,
+      batch_update_from_leaf_mutation D H deq (map (path D H dflt ls) idxs) idxs (j, d, path D H dflt ls j) =
+      Some (map (path D H dflt (upd ls j d)) idxs, md) /\
+      md_spec D H dflt ls (upd ls j d) 0 idxs md.
+Proof. exact batch_update_from_leaf_mutation_spec. Qed.
+Print Assumptions C05_batch_update_from_leaf_mutation.
 
 Definition C05_batch_mutate_full : Prop :=
   forall (D : Type) (H : D -> D -> D) (deq : D -> D -> bool) (dflt : D),
